@@ -54,6 +54,11 @@ CHECKS = {
    note="Order independence for all orders and 'full table = product of clusters' are checked exhaustively on the implementation/model by the harness, not proved. Trusted: translate.py, Lean kernel.",
    technique="translator-generated tables + Lean theorems (general + kernel-decided) + exhaustive correspondence with the real resolver",
    design="5/C19"),
+ "C15": dict(cat="proof",
+   text="The graphs of _convert_string (escapes), _convert_char_const, _create_casei_from and _escape_string on their whole one-character domains are regenerated from nmfu.py and proved equal to the hand models by the kernel; Lean theorems for every byte string: the emitted C string constant lexes back to exactly the bytes (escape_roundtrip, escape_length, with a C string-literal lexer as the definition of 'what C reads'), every byte string has a spelling that reads back as itself, raw characters denote themselves at any position, the escape table is exactly the documented one, '\\0' is NUL, case folding accepts either case of ASCII letters only. Every byte 0..255 in each spelling and each position is pushed through the compiled C; multi-character strings are compared between the Python functions and the Lean functions.",
+   note="The literal *match* part (accepts exactly the sequence, fails at the first differing byte) is decided per literal on the binary here and by the regex acceptance check under C07. Trusted: translate.py, cLex as the reading of the C standard's string-literal lexing, gcc.",
+   technique="translator-generated graphs + Lean codec theorems + exhaustive byte sweep through the compiled C",
+   design="5/C15"),
 }
 
 def main():
